@@ -95,6 +95,16 @@ def run(tier, seed):
         pcases.append(dict(ap=L))
         pcases.append(dict(unique=L))
         pcases.append(dict(unique=L, kind="ECC", uy=LENS[(LENS.index(L) + 3) % len(LENS)]))
+    # small structures of every total length (a TPMT_PUBLIC is not length-prefixed: no framing heuristics), and unique fields with leading zero bytes
+    for apl in range(0, 25):
+        for lx in (0, 1, 4, 7, 8, 32):
+            for ly in ((0, 1, 4, 7, 8, 32) if not quick or apl % 3 == 0 else (7, 8)):
+                pcases.append(dict(kind="ECC", ap=apl, unique=lx, uy=ly))
+        for lu in (0, 1, 2, 3, 5):
+            pcases.append(dict(kind="RSA", ap=apl, unique=lu))
+    for ub in (b"\x00" + rb(255), b"\x00\x00" + rb(254), bytes(256), b"\x00", b"\x00\x01", bytes(128) + rb(128)):
+        pcases.append(dict(kind="RSA", unique_bytes=ub))
+        pcases.append(dict(kind="ECC", unique_bytes=ub[:32] if len(ub) >= 32 else ub, uy_bytes=b"\x00" + rb(31)))
     for _ in range(n):
         pcases.append(dict(attrs=rng.randrange(2 ** 32), kind=rng.choice(["RSA", "ECC"]), ap=rng.choice(LENS), unique=rng.choice(LENS), uy=rng.choice(LENS),
                            name_alg=rng.choice(list(ALG)), sym=rng.choice(list(ALG)), scheme=rng.choice(list(ALG)), curve=rng.choice(list(CURVE)), kdf=rng.choice(list(ALG))))
@@ -106,12 +116,13 @@ def run(tier, seed):
         b = struct.pack(">H", 0x0001 if kind == "RSA" else 0x0023) + struct.pack(">H", na) + struct.pack(">I", attrs) + struct.pack(">H", len(ap)) + ap
         abits = "".join("1" if attrs >> k & 1 else "0" for k in BITS)
         if kind == "RSA":
-            kb, ex, u = rb(2), rb(4), rb(c.get("unique", 256))
+            kb, ex, u = rb(2), rb(4), c.get("unique_bytes", None) if "unique_bytes" in c else rb(c.get("unique", 256))
             b += struct.pack(">HH", sym, sch) + kb + ex + struct.pack(">H", len(u)) + u
             exp = "OK " + " ".join([fw.ws("RSA"), fw.ws(ALG[na]), abits, fw.wb(ap), "RSA", fw.ws(ALG[sym]), fw.ws(ALG[sch]), fw.wb(kb), fw.wb(ex), fw.wb(u)])
         else:
             cv, kdf = c.get("curve", 0x0003), c.get("kdf", 0x0010)
-            x, y = rb(c.get("unique", 32)), rb(c.get("uy", 32))
+            x = c["unique_bytes"] if "unique_bytes" in c else rb(c.get("unique", 32))
+            y = c["uy_bytes"] if "uy_bytes" in c else rb(c.get("uy", 32))
             b += struct.pack(">HHHH", sym, sch, cv, kdf) + struct.pack(">H", len(x)) + x + struct.pack(">H", len(y)) + y
             exp = "OK " + " ".join([fw.ws("ECC"), fw.ws(ALG[na]), abits, fw.wb(ap), "ECC", fw.ws(ALG[sym]), fw.ws(ALG[sch]), fw.ws(CURVE[cv]), fw.ws(ALG[kdf]), fw.wb(x + y)])
         both("pubarea", b, impl.parse_pub_area, exp, kind)
